@@ -736,3 +736,46 @@ class FilterServices(FnCheck):
             z3.And(0 <= i, i < z3.Length(self.S), ok(self.S[i])),
             z3.Exists([j], z3.And(0 <= j, j < z3.Length(R), R[j] == self.S[i])))))
         ex.oblige(st, 'given_collection_untouched', st.list_seq(self.lst) == self.S)
+
+
+import ast as _ast14   # noqa: E402
+from pyvc.api import ScanCheck as _ScanCheck14   # noqa: E402
+
+
+@register
+class EveryProbeMatchEntersTheArbitration(_ScanCheck14):
+    id = 'C14.every_probe_match_entry_enters_the_arbitration'
+    prop = 'C14'
+    doc = ('_handle_received_probe_matches: a ProbeMatches message may carry several ProbeMatch entries; the loop over them '
+           'has no early exit (no return / break in its body) and its body unconditionally builds a Service from the '
+           'members of THAT entry and hands it to _add_remote_service (metadata-version arbitration: '
+           'C14.add_remote_service) - an odd entry cannot keep later entries of the same message out of the table')
+
+    def scan(self, repo):
+        mod = repo.module(WSD)
+        cd = mod.classes['WSDiscovery']
+        fn = next((f for f in cd.body if isinstance(f, _ast14.FunctionDef) and f.name == '_handle_received_probe_matches'), None)
+        if fn is None:
+            return [('handler_found', False, {})]
+        loops = [n for n in _ast14.walk(fn) if isinstance(n, _ast14.For) and _ast14.unparse(n.iter).endswith('.ProbeMatch')]
+        out = [('one_loop_over_the_entries', len(loops) == 1, {'n': len(loops)})]
+        if len(loops) != 1:
+            return out
+        loop = loops[0]
+        v = _ast14.unparse(loop.target)
+        exits = [type(n).__name__ for s in loop.body for n in _ast14.walk(s) if isinstance(n, (_ast14.Return, _ast14.Break, _ast14.Raise))]
+        out.append(('no_early_exit_from_the_loop', not exits, {'found': str(exits)}))
+        top_calls = [s for s in loop.body if isinstance(s, _ast14.Expr) and isinstance(s.value, _ast14.Call)
+                     and _ast14.unparse(s.value.func) == 'self._add_remote_service']
+        # statements before that call must not be able to skip it: no `continue` and no if/try around it
+        idx = loop.body.index(top_calls[0]) if top_calls else -1
+        skips = [type(n).__name__ for s in loop.body[:max(idx, 0)] for n in _ast14.walk(s) if isinstance(n, _ast14.Continue)]
+        out.append(('every_entry_is_added_unconditionally', len(top_calls) == 1 and not skips, {'skips': str(skips)}))
+        built = [s for s in loop.body[:max(idx, 0)] if isinstance(s, _ast14.Assign) and isinstance(s.value, _ast14.Call)
+                 and _ast14.unparse(s.value.func) == 'Service']
+        uses_entry = bool(built) and all(
+            any(isinstance(x, _ast14.Name) and x.id in (v, 'epr', 'scopes', 'instance_id') for x in _ast14.walk(a))
+            for a in list(built[-1].value.args) + [k.value for k in built[-1].value.keywords])
+        arg_ok = bool(top_calls) and bool(built) and _ast14.unparse(top_calls[0].value.args[0]) == _ast14.unparse(built[-1].targets[0])
+        out.append(('the_service_is_built_from_the_members_of_that_entry', uses_entry and arg_ok, {}))
+        return out
